@@ -159,6 +159,35 @@ def _shared_stream_form(ctx, rid, b, nx, fam, ck, other):
     return True
 
 
+def _family_tests(c, fam):
+    """The two fail-fast tests on the family `fam` in body c: {"metric": (rejecting?, test block, reject edge), "name": (..)}."""
+    from pvrules.rules import rejecting
+    tests = {}
+
+    def of_fam(src, what):
+        return is_call(src, what) and peel(src[2][0], transparent=["Deref::deref"]) == fam
+    for bi in c.reachable_blocks():
+        be = c.bool_edges(bi)
+        if be and is_call(be[0], ["slice::is_empty", "str::is_empty", "Vec::is_empty", "String::is_empty"]):
+            src = peel(be[0][2][0])
+            if of_fam(src, ["get_metric"]):
+                tests["metric"] = (rejecting(c, be[1]), bi, be[1])
+            if of_fam(src, ["MetricFamily::name", "get_name"]):
+                tests["name"] = (rejecting(c, be[1]), bi, be[1])
+        if be and be[0][0] == "binop" and be[0][1] in ("Eq", "Ne"):
+            # `x.len() == 0`
+            lens = [z for z in (be[0][2], be[0][3]) if is_call(peel(z), ["slice::len", "Vec::len", "str::len", "String::len"])]
+            zeros = [z for z in (be[0][2], be[0][3]) if const_int(z) == 0]
+            if len(lens) == 1 and len(zeros) == 1:
+                src = peel(peel(lens[0])[2][0])
+                edge = be[1] if be[0][1] == "Eq" else be[2]
+                if of_fam(src, ["get_metric"]):
+                    tests["metric"] = (rejecting(c, edge), bi, edge)
+                if of_fam(src, ["MetricFamily::name", "get_name"]):
+                    tests["name"] = (rejecting(c, edge), bi, edge)
+    return tests
+
+
 def rule_R1(ctx, f):
     rid = "R1"
     ctx.rule(rid, "framing: in ProtobufEncoder::encode every family of the slice, in order, passes check_metric_family(mf)? and is then written by exactly one "
@@ -177,6 +206,13 @@ def rule_R1(ctx, f):
                                                         "Message::write_to_with_cached_sizes", "Message::write_length_delimited_to", "Message::write_to_vec", "Message::compute_size",
                                                         "Message::cached_size", "Message::write_length_delimited_to_vec", "Message::write_length_delimited_to_bytes"])]
             ok = len(ck) == 1 and len(wr) == 1 and not other
+            inline_tests = None
+            if not ck and len(wr) == 1 and not other:
+                # the check written out (or expanded from a validating constructor): both fail-fast tests on this family, each rejecting
+                ft = _family_tests(b, fam)
+                if set(ft) == {"metric", "name"} and all(v_[0] for v_ in ft.values()):
+                    inline_tests = ft
+                    ok = True
             if not ok and len(ck) == 1 and not wr and _shared_stream_form(ctx, rid, b, nx[0], fam, ck[0], other):
                 ok = None
             if ok is None:
@@ -185,7 +221,17 @@ def rule_R1(ctx, f):
               ctx.ob(rid, "encode|one-delimited-write", ok,
                    "each family must be written by exactly one write_length_delimited_to_writer (length prefix + message computed by rust-protobuf) and by nothing else "
                    "(found %d checks, %d delimited writes, other writes %s)" % (len(ck), len(wr), [strip_generics(c.callee) for c in other]), site=b.raw["span"]["at"])
-            if ok is True:
+            if ok is True and inline_tests is not None:
+                si = b.switch_info(nx[0].target)
+                body_entry = [t for v, t in si[1] if v == 1][0]
+                rej_edges = {(v_[1], v_[2]) for v_ in inline_tests.values()}
+                # the write runs only after both tests passed: it is not reachable (Ok/Err followed path-sensitively) once a test has failed, and both tests lie in front of it
+                ok2 = peel(wr[0].args[0], transparent=["Deref::deref"]) == fam and any(s == P(3) for s in subterms(wr[0].args[1])) \
+                    and all(b.dominates_ps(v_[1], wr[0].bb) for v_ in inline_tests.values()) and all(wr[0].bb not in b.reach_ps(e_[1]) for e_ in rej_edges) \
+                    and wr[0].bb in b.reach_ps(body_entry, avoid_edges=rej_edges) and try_continue_block(b, wr[0]) is not None \
+                    and nx[0].bb not in b.reach_ps(body_entry, avoid_blocks=[wr[0].bb], avoid_edges=rej_edges)
+                ctx.ob(rid, "encode|check-then-write", ok2, "the check must precede the write of the same family into the caller's writer, and write errors must propagate", site=wr[0].span)
+            elif ok is True:
                 cont = try_continue_block(b, ck[0])
                 si = b.switch_info(nx[0].target)
                 body_entry = [t for v, t in si[1] if v == 1][0]
@@ -195,27 +241,7 @@ def rule_R1(ctx, f):
     c = ctx.anchor(rid, "check_metric_family", f.body("prometheus::encoder::check_metric_family"))
     if c:
         ctx.saw(c)
-        from pvrules.rules import rejecting
-        tests = {}
-        for bi in c.reachable_blocks():
-            be = c.bool_edges(bi)
-            if be and is_call(be[0], ["slice::is_empty", "str::is_empty", "Vec::is_empty", "String::is_empty"]):
-                src = peel(be[0][2][0])
-                if is_call(src, ["get_metric"]) and peel(src[2][0]) == P(1):
-                    tests["metric"] = rejecting(c, be[1])
-                if is_call(src, ["MetricFamily::name", "get_name"]) and peel(src[2][0]) == P(1):
-                    tests["name"] = rejecting(c, be[1])
-            if be and be[0][0] == "binop" and be[0][1] in ("Eq", "Ne"):
-                # `x.len() == 0`
-                lens = [z for z in (be[0][2], be[0][3]) if is_call(peel(z), ["slice::len", "Vec::len", "str::len", "String::len"])]
-                zeros = [z for z in (be[0][2], be[0][3]) if const_int(z) == 0]
-                if len(lens) == 1 and len(zeros) == 1:
-                    src = peel(peel(lens[0])[2][0])
-                    edge = be[1] if be[0][1] == "Eq" else be[2]
-                    if is_call(src, ["get_metric"]) and peel(src[2][0]) == P(1):
-                        tests["metric"] = rejecting(c, edge)
-                    if is_call(src, ["MetricFamily::name", "get_name"]) and peel(src[2][0]) == P(1):
-                        tests["name"] = rejecting(c, edge)
+        tests = {k_: v_[0] for k_, v_ in _family_tests(c, P(1)).items()}
         ctx.ob(rid, "check_metric_family|rejects", tests == {"metric": True, "name": True}, "a family without samples or without a name must be refused (found %s)" % tests, site=c.raw["span"]["at"])
         # ... and nothing else: every Err the check can return lies behind one of the two emptiness tests (a family of any type, UNTYPED included, is encodable)
         from pvrules.rules import result_assign_blocks
